@@ -1,4 +1,5 @@
 import Nri.Model.LibMem
+import Nri.Model.LibMemHist
 import Nri.Proofs.LibMem
 import Nri.Proofs.LibMemChk
 import Nri.Proofs.LibMemInv
@@ -134,20 +135,6 @@ The per-operation facts above are lifted to arbitrary histories of `Allocate`, `
 `Realloc` and `Release` (every interleaving, successful or failing).  `Commit` is covered
 through `commit_fresh_eq_allocate`-style correspondence only (an offer object is caller-held
 data; the model's `Commit` replays whatever it is given), see the level note. -/
-
-inductive Op where
-  | allocate (r : Req)
-  | getOffer (r : Req)
-  | realloc (id : String) (nodes : Mask) (types : Nat)
-  | release (id : String)
-
-def St.step (s : St) : Op → St
-  | .allocate r => (s.Allocate r).1
-  | .getOffer r => (s.GetOffer r).1
-  | .realloc id nodes types => (s.Realloc id nodes types).1
-  | .release id => (s.Release id).1
-
-def St.run (s : St) (ops : List Op) : St := ops.foldl St.step s
 
 /-- the history invariant: no transaction open, unique ids, every request placed on a zone
 that contains a node with normal (non-movable) memory. -/
